@@ -368,6 +368,14 @@ def check_tab(ctx, case):
                         s_, f_ = cands[pick % len(cands)]
                         objs[wi % len(ps)] = src.get_Note(s_, f_)
                         wished[0] = True
+                    if len(e["wish"]) > 3 and e["wish"][3]:
+                        # every note of the entry carries a wish of its own (each one correct by itself; together they may
+                        # collide on a string or span too many frets)
+                        for idx, p_ in enumerate(ps):
+                            cs = [(s_, p_ - o_) for s_, o_ in enumerate(o) if 0 <= p_ - o_ <= 24]
+                            if cs:
+                                s_, f_ = cs[(pick + idx * (1 + wi)) % len(cs)]
+                                objs[idx] = tt.get_Note(s_, f_)
                 if not b.place_notes(NoteContainer(objs) if ps else None, RV.number(e["v"])):
                     break
                 es.append((e["v"], ps))
@@ -540,7 +548,7 @@ def _pos_st():
 def _tab_st():
     vals = st.sampled_from([[1, 0, 1, 1], [2, 0, 1, 1], [4, 0, 1, 1], [4, 0, 1, 1], [8, 0, 1, 1], [2, 1, 1, 1], [4, 1, 1, 1], [16, 0, 1, 1]])
     entry = st.fixed_dictionaries({"v": vals, "pos": st.none() | _pos_st() | _pos_st()},
-                                  optional={"wish": st.tuples(st.integers(0, 3), st.integers(0, 5), st.booleans()).map(list)})
+                                  optional={"wish": st.tuples(st.integers(0, 3), st.integers(0, 5), st.booleans(), st.booleans()).map(list)})
     bar = st.fixed_dictionaries({"meter": st.sampled_from([[4, 4], [3, 4], [2, 4], [6, 8], [2, 2], [5, 4]]), "entries": st.lists(entry, min_size=1, max_size=8)})
     track = st.lists(bar, min_size=1, max_size=5)
     width = st.sampled_from([40, 60, 61, 80, 100, 120, 121, 160]) | st.integers(40, 160)
